@@ -195,10 +195,15 @@ func VC18IO() {
 	io.Out(p, v)
 	vAssert("other-port-silent", cons.n == 2)
 	vAssert("other-port-warns", vWarnCount() == 1)
+	// again, same port: still nothing on the console (whether it warns every
+	// time or once per port is left open)
+	io.Out(p, w)
+	vAssert("other-port-silent-again", cons.n == 2)
+	before := vWarnCount()
 	q := vU8("q")
 	r := io.In(q)
 	vAssert("in-silent", cons.n == 2)
-	vAssert("in-warns", vWarnCount() == 2)
+	vAssert("in-warns", vWarnCount() == before+1)
 	vAssert("in-returns-0", r == 0)
 }
 
